@@ -117,6 +117,9 @@ func (c *Ctx) tr(x ast.Expr) Val {
 		if v, ok := c.Vars[x.Name]; ok {
 			return v
 		}
+		if x.Name == "me" {
+			return ival("me")
+		}
 		if c.E != nil {
 			if v, ok := c.E.lookupLocal(c, x.Name); ok {
 				return v
@@ -209,6 +212,16 @@ func (c *Ctx) tr(x ast.Expr) Val {
 }
 
 func (c *Ctx) selectField(x ast.Expr, b Val, name string) Val {
+	v := c.selectField0(x, b, name)
+	if c.E != nil && c.E.fn != nil && !strings.Contains(strings.Join(v.C, " "), "q_") && !strings.Contains(strings.Join(v.C, " "), "L_") {
+		if tf := c.E.typeFacts(v); tf != "true" && len(tf) < 2000 {
+			c.E.def(tf)
+		}
+	}
+	return v
+}
+
+func (c *Ctx) selectField0(x ast.Expr, b Val, name string) Val {
 	t := b.T
 	isPtr := false
 	if p, ok := t.Underlying().(*types.Pointer); ok {
@@ -420,6 +433,50 @@ func (c *Ctx) trCall(x *ast.CallExpr) Val {
 			out.C = append(out.C, ite(cond, a.C[i], b.C[i]))
 		}
 		return out
+	case "forallint":
+		id := args[0].(*ast.Ident)
+		bv := c.E.freshName("q_" + id.Name)
+		inner := c.with(map[string]Val{id.Name: ival(bv)})
+		if c.Old != nil {
+			inner.Old = c.Old.with(map[string]Val{id.Name: ival(bv)})
+		}
+		return bval(fmt.Sprintf("(forall ((%s Int)) %s)", bv, inner.boolT(args[1])))
+	case "subref":
+		v := c.tr(args[0])
+		k := c.intT(args[1])
+		return ival(app("sub", v.C[0], k))
+	case "asptr":
+		v := c.tr(args[0])
+		lit, _ := litOf(args[1])
+		return Val{c.E.typeByName(lit), []string{v.C[0]}}
+	case "keyid":
+		v := c.tr(args[0])
+		return ival(mapKeyId(c.E, tString, v))
+	case "mapHasId", "mapValId":
+		m := c.tr(args[0])
+		mt := m.T.Underlying().(*types.Map)
+		k := c.intT(args[1])
+		has, v := c.E.mapGet(c.St, mt, m.C[0], k)
+		if name == "mapHasId" {
+			return bval(has)
+		}
+		return v
+	case "held":
+		if h, ok := c.St.m["mon:held"]; ok {
+			return bval(h)
+		}
+		return bval("false")
+	case "moninv":
+		// conjunction of the invariant clauses of the (single) monitor, for owner s
+		owner := c.tr(args[0])
+		var cs []string
+		for _, m := range c.E.W.Specs.Monitors {
+			mc := &Ctx{E: c.E, Vars: map[string]Val{"s": owner, "me": ival("me"), "t": ival("me")}, St: c.St, where: c.where + " moninv"}
+			for _, inv := range m.Inv {
+				cs = append(cs, mc.boolT(inv.Expr))
+			}
+		}
+		return bval(and(cs...))
 	case "forallge":
 		// forallge(q, lo, body): for all q >= lo
 		id := args[0].(*ast.Ident)
